@@ -75,7 +75,9 @@ def run_history(tc, w, frames, thr=0.5):
 
 
 def animal_pose(a, rng, drift):
-    base = np.array([190.0 * a, 150.0 * a])
+    # layout "diagonal": neighbours on a diagonal, their bounding boxes 1.25 body sizes apart in x AND in y (still far apart
+    # compared with a drift of half a pixel per frame) - boxes that are disjoint along both axes at once
+    base = np.array([90.0 * a, 90.0 * a]) if drift.get("layout") == "diagonal" else np.array([190.0 * a, 150.0 * a])
     if ("rest", a) not in drift:          # a quarter of the animals do not move at all (identical pose on every frame)
         drift[("rest", a)] = rng.random() < 0.25
     step = np.zeros(2) if drift[("rest", a)] else np.array([rng.uniform(-0.5, 0.5), rng.uniform(-0.5, 0.5)])
